@@ -11,7 +11,7 @@ ops (tab-separated fields; inside a field, space-separated tokens):
 
 tokens:
   Val  := s:<hex> | n:<int> | nil | [ Val* ] | { (Key Val)* }
-  Key  := s:<hex> | n:<int> | k[ <hex>* ]
+  Key  := s:<hex> | n:<int> | k[ <hex>* ] | knil
   LV   := lv:<tag>:<head> Key*
   Rhs  := v Val | $<name> Key*
   Stmt := set LV* = Rhs* ; | tmp LV* = Rhs* ; | del LV ; | put Rhs* ;
@@ -32,6 +32,7 @@ def renderKey : Key → String
   | .str s => "s:" ++ hexEnc s
   | .num i => "n:" ++ toString i
   | .strs l => "k[" ++ " ".intercalate (l.map hexEnc) ++ "]"
+  | .nil => "knil"
 
 def joinSorted (kvs : List (String × String)) : String :=
   let sorted := kvs.mergeSort (fun a b => !(b.1 < a.1))
@@ -89,6 +90,7 @@ def parseKey? (ts : List String) : Option (Key × List String) :=
     if t.startsWith "s:" then (hexDecode (dropS t 2)).map (fun b => (Key.str b, rest))
     else if t.startsWith "n:" then (dropS t 2).toInt?.map (fun i => (Key.num i, rest))
     else if t = "k[" then (parseKeyStrs (rest.length + 1) rest).map (fun (l, r) => (Key.strs l, r))
+    else if t = "knil" then some (Key.nil, rest)
     else none
 
 def parseKeys : Nat → List String → List Key × List String
